@@ -11,3 +11,105 @@ package astwalk
 //@ func *.EnterFunc
 //@   prop C01 C13
 //@   ensures @entered-functions-have-bodies result ==> arg0.Body != nil
+//@   abstracts result as enterFuncSpec(recv, arg0)
+
+//@ abstract enterFileSpec(v iface, f ref) bool
+//@ abstract enterFuncSpec(v iface, d ref) bool
+
+//@ func *.EnterFile
+//@   prop C13
+//@   abstracts result as enterFileSpec(recv, arg0)
+
+// (second clause group for EnterFunc: its result is named at the walkers' call sites)
+//@ func *.VisitStmt
+//@   prop C13
+//@   emits visited(arg0)
+//@ func *.VisitExpr
+//@   prop C13
+//@   emits visited(arg0)
+//@ func *.VisitLocalExpr
+//@   prop C13
+//@   emits visited(arg0)
+//@ func *.VisitFuncDecl
+//@   prop C13
+//@   emits visited(arg0)
+//@ func *.VisitStmtList
+//@   prop C13
+//@   emits visited(arg0)
+//@ func *.skipChilds
+//@   prop C13 C03
+//@   emits skipconsumed(recv)
+
+// the one-shot flag: read and cleared in one step
+//@ func (*WalkHandler).skipChilds
+//@   prop C13 C03
+//@   requires w != nil
+//@   assigns w.SkipChilds
+//@   ensures @flag-returned-and-cleared result == old(w.SkipChilds) && !w.SkipChilds
+
+//@ func (*WalkHandler).EnterFunc
+//@   prop C13
+//@   pure
+//@   requires w != nil && decl != nil
+//@   ensures @bodyless-functions-are-skipped result <==> decl.Body != nil
+
+// ---- per-declaration walkers: every declaration of the file is examined; a function declaration is traversed
+// iff the visitor accepts it, exactly once, starting from its own body (or node); nothing else decides it
+
+//@ func (*stmtWalker).WalkFile
+//@   prop C13
+//@   nosafety
+//@   requires w != nil && f != nil
+//@   call go/ast.Inspect requires @traversal-root-is-this-declarations-body payload(arg0) == decl.Body
+//@   loop 1 body @declaration-traversed-iff-accepted emitted(inspected) == old(emitted(inspected)) + ite(typeIs(f.Decls[$i], "*ast.FuncDecl") && enterFuncSpec(w.visitor, cast(f.Decls[$i], "*ast.FuncDecl")), 1, 0)
+//@   ensures @all-declarations-examined enterFileSpec(w.visitor, f) ==> $i1 == len(f.Decls)
+
+//@ func (*stmtWalker).WalkFile$1
+//@   prop C13 C03
+//@   nosafety
+//@   ensures @each-statement-visited-once emitted(visited) == old(emitted(visited)) + ite(implements(x, "ast.Stmt"), 1, 0)
+//@   ensures @skip-flag-consumed-after-every-visit emitted(skipconsumed) == old(emitted(skipconsumed)) + ite(implements(x, "ast.Stmt"), 1, 0)
+
+//@ func (*localExprWalker).WalkFile
+//@   prop C13
+//@   nosafety
+//@   requires w != nil && f != nil
+//@   call go/ast.Inspect requires @traversal-root-is-this-declarations-body payload(arg0) == decl.Body
+//@   loop 1 body @declaration-traversed-iff-accepted emitted(inspected) == old(emitted(inspected)) + ite(typeIs(f.Decls[$i], "*ast.FuncDecl") && enterFuncSpec(w.visitor, cast(f.Decls[$i], "*ast.FuncDecl")), 1, 0)
+//@   ensures @all-declarations-examined enterFileSpec(w.visitor, f) ==> $i1 == len(f.Decls)
+
+//@ func (*localExprWalker).WalkFile$1
+//@   prop C13 C03
+//@   nosafety
+//@   ensures @each-expression-visited-once emitted(visited) == old(emitted(visited)) + ite(implements(x, "ast.Expr"), 1, 0)
+//@   ensures @skip-flag-consumed-after-every-visit emitted(skipconsumed) == old(emitted(skipconsumed)) + ite(implements(x, "ast.Expr"), 1, 0)
+
+//@ func (*stmtListWalker).WalkFile
+//@   prop C13
+//@   nosafety
+//@   requires w != nil && f != nil
+//@   call go/ast.Inspect requires @traversal-root-is-this-declarations-body payload(arg0) == decl.Body
+//@   loop 1 body @declaration-traversed-iff-accepted emitted(inspected) == old(emitted(inspected)) + ite(typeIs(f.Decls[$i], "*ast.FuncDecl") && enterFuncSpec(w.visitor, cast(f.Decls[$i], "*ast.FuncDecl")), 1, 0)
+//@   ensures @all-declarations-examined enterFileSpec(w.visitor, f) ==> $i1 == len(f.Decls)
+
+//@ func (*exprWalker).WalkFile
+//@   prop C13
+//@   nosafety
+//@   requires w != nil && f != nil
+//@   call go/ast.Inspect requires @traversal-root-is-this-declaration arg0 == f.Decls[$i1]
+//@   loop 1 body @declaration-traversed-unless-refused emitted(inspected) == old(emitted(inspected)) + ite(typeIs(f.Decls[$i], "*ast.FuncDecl") && !enterFuncSpec(w.visitor, cast(f.Decls[$i], "*ast.FuncDecl")), 0, 1)
+//@   ensures @all-declarations-examined enterFileSpec(w.visitor, f) ==> $i1 == len(f.Decls)
+
+//@ func (*exprWalker).WalkFile$1
+//@   prop C13 C03
+//@   nosafety
+//@   ensures @each-expression-visited-once emitted(visited) == old(emitted(visited)) + ite(implements(x, "ast.Expr"), 1, 0)
+//@   ensures @skip-flag-consumed-after-every-visit emitted(skipconsumed) == old(emitted(skipconsumed)) + ite(implements(x, "ast.Expr"), 1, 0)
+
+//@ func (*funcDeclWalker).WalkFile
+//@   prop C13
+//@   nosafety
+//@   requires w != nil && f != nil
+//@   call FuncDeclVisitor.VisitFuncDecl requires @visited-declaration-is-this-one arg1 == cast(f.Decls[$i1], "*ast.FuncDecl")
+//@   loop 1 body @declaration-visited-iff-accepted emitted(visited) == old(emitted(visited)) + ite(typeIs(f.Decls[$i], "*ast.FuncDecl") && enterFuncSpec(w.visitor, cast(f.Decls[$i], "*ast.FuncDecl")), 1, 0)
+//@   ensures @all-declarations-examined enterFileSpec(w.visitor, f) ==> $i1 == len(f.Decls)
